@@ -31,19 +31,27 @@ class Execution(object):
     """One controlled execution of the real RWLock with the given logical threads."""
 
     def __init__(self, readers, writers, rounds):
-        import ecdsa._rwlock as rw
-        self.rw = rw
+        import sys
+        import types
+        import ecdsa._rwlock as rw_orig
         self.s = sched.Sched()
         self.shim = sched.ShimThreading(self.s)
-        self.saved_threading = rw.threading
-        rw.threading = self.shim
+        # execute the module's current source afresh with the shim as `threading`, so that every mutex the module
+        # creates - in __init__ or at class-definition time - is scheduler-controlled, and class-level state is fresh
+        src = open(rw_orig.__file__).read()
+        mod = types.ModuleType("ecdsa._rwlock_under_test")
+        mod.__file__ = rw_orig.__file__
+        saved = sys.modules.get("threading")
+        sys.modules["threading"] = self.shim
+        try:
+            exec(compile(src, rw_orig.__file__, "exec"), mod.__dict__)
+        finally:
+            sys.modules["threading"] = saved
+        self.rw = mod
         self.installed = []
         self.inside = {}
         self.readers, self.writers = list(readers), list(writers)
-        try:
-            self.lock = rw.RWLock()
-        finally:
-            rw.threading = self.saved_threading
+        self.lock = mod.RWLock()
         self._name_parts()
         for name in self.readers:
             self._spawn(name, rounds, self.lock.reader_acquire, self.lock.reader_release)
@@ -51,34 +59,47 @@ class Execution(object):
             self._spawn(name, rounds, self.lock.writer_acquire, self.lock.writer_release)
 
     def _name_parts(self):
-        """Find mutexes and counters by introspection of the instance (robust to reordered construction)."""
+        """Find mutexes and counters by introspection (robust to reordered construction, class-level attributes,
+        shared or renamed parts): anything not recognised keeps a generic name and is still scheduled."""
         self.mutex = {}
         self.counter = {}       # name -> (object, attribute)
-        lsw_cls = None
-        for key, val in vars(self.lock).items():
+
+        def attrs(o):
+            d = {}
+            for klass in reversed(type(o).__mro__):
+                d.update({k: v for k, v in vars(klass).items() if not k.startswith("__")})
+            d.update(vars(o))
+            return d
+
+        for key, val in attrs(self.lock).items():
+            short = key.split("__")[-1]
             if isinstance(val, sched.ShimLock):
-                nm = {"no_readers": "nr", "no_writers": "nw", "readers_queue": "q"}.get(key.split("__")[-1], key)
-                self.mutex[nm] = val
-            elif hasattr(val, "__dict__"):
-                sw = "r" if "read" in key else "w"
-                lsw_cls = type(val)
-                for k2, v2 in vars(val).items():
+                self.mutex.setdefault({"no_readers": "nr", "no_writers": "nw", "readers_queue": "q"}.get(short, short), val)
+            elif hasattr(val, "__dict__") and not callable(val):
+                sw = "r" if "read" in short else "w"
+                for k2, v2 in attrs(val).items():
                     if isinstance(v2, sched.ShimLock):
-                        self.mutex[sw + "m"] = v2
-                    elif isinstance(v2, int):
+                        self.mutex.setdefault(sw + "m", v2)
+                    elif isinstance(v2, int) and not isinstance(v2, bool):
                         self.counter[sw] = (val, k2)
+        named = {id(l) for l in self.mutex.values()}
+        for i, l in enumerate(self.shim.locks):
+            if id(l) not in named:
+                self.mutex["m%d" % i] = l
         for nm, l in self.mutex.items():
-            l.name = nm
+            if l.name is None:
+                l.name = nm
         self.obj_name = {id(o): n for n, (o, a) in self.counter.items()}
         # yield at every access of the counters
-        if lsw_cls is not None:
-            for attr in {a for (o, a) in self.counter.values()}:
-                if not isinstance(lsw_cls.__dict__.get(attr), sched.YieldingAttr):
-                    setattr(lsw_cls, attr, sched.YieldingAttr(self.s, attr, "counter"))
-                    self.installed.append((lsw_cls, attr))
-                else:
-                    lsw_cls.__dict__[attr].sched = self.s
-        self.lsw_cls = lsw_cls
+        for n, (o, attr) in self.counter.items():
+            cls = type(o)
+            cur = cls.__dict__.get(attr)
+            if not isinstance(cur, sched.YieldingAttr):
+                d = sched.YieldingAttr(self.s, attr, "counter")
+                if cur is not None:
+                    d.default = cur
+                setattr(cls, attr, d)
+                self.installed.append((cls, attr))
 
     def _spawn(self, name, rounds, acq, rel):
         self.inside[name] = False
@@ -117,7 +138,8 @@ class Execution(object):
 
     def projection(self):
         return {"mtx": {n: l.held for n, l in self.mutex.items()},
-                "cnt": {n: o.__dict__[a] for n, (o, a) in self.counter.items()},
+                "cnt": {n: o.__dict__.get(a, getattr(type(o).__dict__.get(a), "default", None))
+                        for n, (o, a) in self.counter.items()},
                 "ops": {n: (None if t.finished else self.op_of(t.pending)) for n, t in self.s.ts.items()},
                 "inside": sorted(n for n, v in self.inside.items() if v and not self.s.ts[n].finished)}
 
@@ -192,7 +214,8 @@ def replay_paths(args):
                     mism.append({"schedule": list(sched_so_far), "what": "; ".join(diffs)})
                     break
         except sched.SchedulerStuck as e:
-            breach.append({"schedule": list(sched_so_far), "what": "execution stuck: %s" % e})
+            breach.append({"schedule": list(sched_so_far), "what": "a thread neither finished nor reached a mutex operation "
+                           "within %.0f s (blocked outside the lock's mutexes?): %s" % (sched.WATCHDOG, e)})
         finally:
             ex.close()
     return steps, mism, breach
